@@ -1,8 +1,10 @@
 package main
 
 import (
+	"bytes"
 	"fmt"
 	"go/ast"
+	"go/printer"
 	"go/token"
 	"go/types"
 	"regexp"
@@ -20,6 +22,16 @@ import (
 //     target.DependenciesFor, then any retry block `if len(deps) == 0 && label.Subrepo != "" { label.Subrepo = "";
 //     deps = target.DependenciesFor(label) }` (none in the code as it stands; the model follows whatever is listed and
 //     the theorem "only the exact label, subrepo included, expands" needs the list to be [LookupExact]),
+//   - the guards of BuildTarget.provideFor (src/core/build_target.go), in order (provide_guards): the `if <cond> { return
+//     nil, false }` statements between the nil/empty test and the loop over other.Requires, each translated to
+//     GuardData (target.isDataFor(other)) or GuardTool (other.IsTool(target.Label)); the model's dependency resolution
+//     runs whatever is listed, and "a tool label resolves to the tool itself" needs GuardTool to be in the list,
+//   - workerAndArgs as a straight-line program (worker_steps) over an error variable: WExpand slot part (`x, err :=
+//     replaceSequencesInternal(state, target, <part>, false)`), WCheck (`if err != nil { return "", "", "", err }`),
+//     WWorker (the replaceWorkerSequence call, with its literal flags) and WReturn args local with_err; the model
+//     interprets the program and "an accepted worker command has both halves expanded" needs every WExpand to be
+//     checked before err is assigned again or dropped; the worker regular expression and the prefix test of
+//     ReplaceTestSequences are emitted as strings and pinned by the proofs,
 //   - the writes of the output loop of checkAndReplaceSequence (out_loop_writes): every path goes through quote()
 //     on its own, followed by the separator; the result is TrimRight(builder, separator).
 // Anything that does not have exactly the recognised shape fails closed.
@@ -306,6 +318,8 @@ func init() {
 		b.WriteString("(* checkAndReplaceSequence, the loop over dep.Outputs(): what is written to the builder per selected output *)\n")
 		b.WriteString("Definition out_loop_writes : list string := " + coqStringList(writes) + ".\n")
 		b.WriteString("Definition out_loop_sep : string := " + coqString(outSep) + ".\n")
+		b.WriteString(c37ProvideGuards())
+		b.WriteString(c37WorkerSteps(f, regexes))
 		return b.String()
 	}
 }
@@ -455,4 +469,249 @@ func c37OutputLoop(f *ast.File) ([]string, string) {
 		failShape("checkAndReplaceSequence: the builder is not what the output loop returns")
 	}
 	return writes, seps[0]
+}
+
+// c37NormSrc prints a node and removes all white space.
+func c37NormSrc(n ast.Node) string {
+	var buf bytes.Buffer
+	if err := printer.Fprint(&buf, token.NewFileSet(), n); err != nil {
+		failShape("cannot print a node: %v", err)
+	}
+	return strings.Join(strings.Fields(buf.String()), "")
+}
+
+// c37ProvideGuards translates the guards of BuildTarget.provideFor:
+//
+//	target.mutex.RLock(); defer target.mutex.RUnlock()
+//	if target.Provides == nil || len(other.Requires) == 0 { return nil, false }
+//	[ if target.isDataFor(other) { return nil, false } | if other.IsTool(target.Label) { return nil, false } ]*
+//	var ret []BuildLabel; found := false
+//	for _, require := range other.Requires { if label, present := target.Provides[require]; present { ...append...; found = true } }
+//	return ret, found
+func c37ProvideGuards() string {
+	_, f := parseFile("src/core/build_target.go")
+	fd := findFunc(f, "BuildTarget", "provideFor")
+	st := fd.Body.List
+	if len(st) < 7 {
+		failShape("provideFor: too few statements")
+	}
+	if c37NormSrc(st[0]) != "target.mutex.RLock()" || c37NormSrc(st[1]) != "defertarget.mutex.RUnlock()" {
+		failShape("provideFor: does not start with the read lock")
+	}
+	isBail := func(s ast.Stmt) (string, bool) {
+		is, ok := s.(*ast.IfStmt)
+		if !ok || is.Init != nil || is.Else != nil || len(is.Body.List) != 1 || c37NormSrc(is.Body.List[0]) != "returnnil,false" {
+			return "", false
+		}
+		return types.ExprString(is.Cond), true
+	}
+	if c, ok := isBail(st[2]); !ok || c != "target.Provides == nil || len(other.Requires) == 0" {
+		failShape("provideFor: the first test is not `if target.Provides == nil || len(other.Requires) == 0 { return nil, false }`")
+	}
+	guards := []string{}
+	i := 3
+	for ; i < len(st); i++ {
+		c, ok := isBail(st[i])
+		if !ok {
+			break
+		}
+		switch c {
+		case "target.isDataFor(other)":
+			guards = append(guards, "GuardData")
+		case "other.IsTool(target.Label)":
+			guards = append(guards, "GuardTool")
+		default:
+			failShape("provideFor: unrecognised guard %q", c)
+		}
+	}
+	if i+4 != len(st) {
+		failShape("provideFor: expected `var ret; found := false; for ...; return ret, found` after the guards")
+	}
+	if c37NormSrc(st[i]) != "varret[]BuildLabel" || c37NormSrc(st[i+1]) != "found:=false" || c37NormSrc(st[i+3]) != "returnret,found" {
+		failShape("provideFor: unrecognised statements around the loop over other.Requires")
+	}
+	wantLoop := "for_,require:=rangeother.Requires{iflabel,present:=target.Provides[require];present{ifret==nil{ret=make([]BuildLabel,0,len(other.Requires))}ret=append(ret,label...)found=true}}"
+	if got := c37NormSrc(st[i+2]); got != wantLoop {
+		failShape("provideFor: the loop over other.Requires is %q", got)
+	}
+	// isDataFor: some entry of other.AllData() has our label
+	df := findFunc(f, "BuildTarget", "isDataFor")
+	if got := c37NormSrc(df.Body); got != "{for_,data:=rangeother.AllData(){iflabel,ok:=data.Label();ok&&label==target.Label{returntrue}}returnfalse}" {
+		failShape("isDataFor: unrecognised body %q", got)
+	}
+	// resolveOneDependency: not provided -> the target itself; provided -> the provided targets, in order
+	rd := findFunc(f, "BuildTarget", "resolveOneDependency")
+	rds := c37NormSrc(rd.Body)
+	for _, piece := range []string{
+		"providesLabels,ok:=depTarget.provideFor(target)if!ok{",
+		"dep.deps=[]*BuildTarget{depTarget}returnnil}",
+		"for_,l:=rangeprovidesLabels{providesTarget:=graph.WaitForTarget(l)",
+		"deps=append(deps,providesTarget)}",
+		"dep.deps=depsreturnnil}",
+	} {
+		if !strings.Contains(rds, piece) {
+			failShape("resolveOneDependency: %q not found", piece)
+		}
+	}
+	var b strings.Builder
+	b.WriteString("(* BuildTarget.provideFor: the tests that stop a provided target being substituted, in source order *)\n")
+	b.WriteString("Inductive provide_guard := GuardData | GuardTool.\n")
+	b.WriteString("Definition provide_guards : list provide_guard := [" + strings.Join(guards, "; ") + "].\n")
+	return b.String()
+}
+
+// c37WorkerSteps translates workerAndArgs into a straight-line program over the error variable.
+func c37WorkerSteps(f *ast.File, regexes map[string]string) string {
+	re, ok := regexes["workerReplacement"]
+	if !ok {
+		failShape("workerReplacement not found")
+	}
+	fd := findFunc(f, "", "workerAndArgs")
+	st := fd.Body.List
+	if len(st) < 4 {
+		failShape("workerAndArgs: too few statements")
+	}
+	if c37NormSrc(st[0]) != "match:=workerReplacement.FindStringSubmatch(command)" {
+		failShape("workerAndArgs: first statement is not the regex match")
+	}
+	if got := c37NormSrc(st[1]); !strings.HasPrefix(got, `ifmatch==nil{cmd,err:=ReplaceSequences(state,target,command)return"","",cmd,err}elseifmatch[1]!=""{panic(`) {
+		failShape("workerAndArgs: second statement is not the no-match / preceding-command test: %q", got)
+	}
+	slots := map[string]int{}
+	workerVar := ""
+	var flags []string
+	steps := []string{}
+	workerCall := func(e ast.Expr) bool {
+		c, ok := e.(*ast.CallExpr)
+		if !ok || types.ExprString(c.Fun) != "replaceWorkerSequence" {
+			return false
+		}
+		if len(c.Args) != 9 || types.ExprString(c.Args[0]) != "state" || types.ExprString(c.Args[1]) != "target" ||
+			types.ExprString(c.Args[2]) != "fs.ExpandHomePath(match[2])" {
+			failShape("workerAndArgs: replaceWorkerSequence is not called on (state, target, fs.ExpandHomePath(match[2]), six flags)")
+		}
+		flags = nil
+		for k := 3; k < 9; k++ {
+			id, ok := c.Args[k].(*ast.Ident)
+			if !ok || (id.Name != "true" && id.Name != "false") {
+				failShape("workerAndArgs: flag %d of replaceWorkerSequence is not a literal bool", k-3)
+			}
+			flags = append(flags, id.Name)
+		}
+		return true
+	}
+	slotOf := func(e ast.Expr) int {
+		id, ok := e.(*ast.Ident)
+		if !ok {
+			failShape("workerAndArgs: %s is returned where an expanded command is expected", types.ExprString(e))
+		}
+		n, ok := slots[id.Name]
+		if !ok {
+			failShape("workerAndArgs: %s is returned but never assigned by replaceSequencesInternal", id.Name)
+		}
+		return n
+	}
+	returned := false
+	for i := 2; i < len(st); i++ {
+		if returned {
+			failShape("workerAndArgs: statements after the return")
+		}
+		switch x := st[i].(type) {
+		case *ast.AssignStmt:
+			if len(x.Rhs) != 1 {
+				failShape("workerAndArgs: statement %d: unrecognised assignment", i)
+			}
+			if len(x.Lhs) == 1 && x.Tok == token.DEFINE && workerCall(x.Rhs[0]) {
+				if workerVar != "" {
+					failShape("workerAndArgs: the worker is expanded twice")
+				}
+				workerVar = types.ExprString(x.Lhs[0])
+				steps = append(steps, "WWorker")
+				continue
+			}
+			c, ok := x.Rhs[0].(*ast.CallExpr)
+			if !ok || len(x.Lhs) != 2 || types.ExprString(x.Lhs[1]) != "err" || types.ExprString(c.Fun) != "replaceSequencesInternal" || len(c.Args) != 4 ||
+				types.ExprString(c.Args[0]) != "state" || types.ExprString(c.Args[1]) != "target" || types.ExprString(c.Args[3]) != "false" {
+				failShape("workerAndArgs: statement %d is not `x, err := replaceSequencesInternal(state, target, <part>, false)`", i)
+			}
+			part := ""
+			switch types.ExprString(c.Args[2]) {
+			case "strings.TrimSpace(match[3])":
+				part = "PArgsTrim"
+			case "match[3]":
+				part = "PArgs"
+			case "match[4]":
+				part = "PLocal"
+			default:
+				failShape("workerAndArgs: statement %d expands %s", i, types.ExprString(c.Args[2]))
+			}
+			name := types.ExprString(x.Lhs[0])
+			if _, ok := x.Lhs[0].(*ast.Ident); !ok || name == "_" || name == workerVar {
+				failShape("workerAndArgs: statement %d assigns %s", i, name)
+			}
+			if _, ok := slots[name]; !ok {
+				slots[name] = len(slots)
+			}
+			steps = append(steps, fmt.Sprintf("WExpand %d%%nat %s", slots[name], part))
+		case *ast.IfStmt:
+			if x.Init != nil || x.Else != nil || types.ExprString(x.Cond) != "err != nil" || len(x.Body.List) != 1 ||
+				c37NormSrc(x.Body.List[0]) != `return"","","",err` {
+				failShape("workerAndArgs: statement %d is not `if err != nil { return \"\", \"\", \"\", err }`", i)
+			}
+			steps = append(steps, "WCheck")
+		case *ast.ReturnStmt:
+			if len(x.Results) != 4 {
+				failShape("workerAndArgs: the return does not have four results")
+			}
+			if workerCall(x.Results[0]) {
+				if workerVar != "" {
+					failShape("workerAndArgs: the worker is expanded twice")
+				}
+				steps = append(steps, "WWorker")
+			} else if workerVar == "" || types.ExprString(x.Results[0]) != workerVar {
+				failShape("workerAndArgs: the first result is not the expanded worker")
+			}
+			a, l := slotOf(x.Results[1]), slotOf(x.Results[2])
+			we := ""
+			switch types.ExprString(x.Results[3]) {
+			case "err":
+				we = "true"
+			case "nil":
+				we = "false"
+			default:
+				failShape("workerAndArgs: the last result is neither err nor nil")
+			}
+			steps = append(steps, fmt.Sprintf("WReturn %d%%nat %d%%nat %s", a, l, we))
+			returned = true
+		default:
+			failShape("workerAndArgs: statement %d has an unrecognised form", i)
+		}
+	}
+	if !returned || flags == nil {
+		failShape("workerAndArgs: no final return of the expanded worker")
+	}
+	// replaceWorkerSequence: if !LooksLikeABuildLabel(in) { return in }; return replaceSequence(state, target, in, <the flags in order>)
+	rw := findFunc(f, "", "replaceWorkerSequence")
+	if got := c37NormSrc(rw.Body); got != "{if!LooksLikeABuildLabel(in){returnin}returnreplaceSequence(state,target,in,runnable,multiple,dir,outPrefix,hash,test)}" {
+		failShape("replaceWorkerSequence: unrecognised body %q", got)
+	}
+	// ReplaceTestSequences: "" -> $(exe :name) with test=true; HasPrefix(command, P) -> the local part of workerAndArgs; else test=true
+	rt := findFunc(f, "", "ReplaceTestSequences")
+	rts := c37NormSrc(rt.Body)
+	m := regexp.MustCompile("^\\{ifcommand==\"\"\\{returnreplaceSequencesInternal\\(state,target,fmt\\.Sprintf\\(\"\\$\\(exe:%s\\)\",target\\.Label\\.Name\\),true\\)\\}elseifstrings\\.HasPrefix\\(command,(\"[^\"]*\")\\)\\{_,_,cmd,err:=workerAndArgs\\(state,target,command\\)returncmd,err\\}returnreplaceSequencesInternal\\(state,target,command,true\\)\\}$").FindStringSubmatch(rts)
+	if m == nil {
+		failShape("ReplaceTestSequences: unrecognised body %q", rts)
+	}
+	prefix := unquote(&ast.BasicLit{Kind: token.STRING, Value: m[1]})
+	var b strings.Builder
+	b.WriteString("(* workerAndArgs as a straight-line program over its error variable; see harness/cmd/gotrans/c37cmdrepl.go *)\n")
+	b.WriteString("Inductive wpart := PArgsTrim | PArgs | PLocal.\n")
+	b.WriteString("Inductive wstep := WExpand (slot : nat) (p : wpart) | WCheck | WWorker | WReturn (args local : nat) (with_err : bool).\n")
+	b.WriteString("Definition worker_steps : list wstep := [" + strings.Join(steps, "; ") + "].\n")
+	b.WriteString("(* replaceWorkerSequence(..., runnable, multiple, dir, outPrefix, hash, test) *)\n")
+	b.WriteString("Definition worker_flags : bool * bool * bool * bool * bool := (" + strings.Join(flags[:5], ", ") + ").\n")
+	b.WriteString("Definition worker_test : bool := " + flags[5] + ".\n")
+	b.WriteString("Definition worker_regex : string := " + coqString(re) + ".\n")
+	b.WriteString("Definition test_worker_prefix : string := " + coqString(prefix) + ".\n")
+	return b.String()
 }
